@@ -10,6 +10,7 @@ EXTENDS Fmt, Json, IOUtils
 
 CONSTANTS Batch,       \* elements per batch
           DaysTo,      \* every day number 0 .. DaysTo
+          DayPasses,   \* ... that many times, each pass at another second of day
           YearsFrom, YearsTo,   \* 1 Jan, 28 Feb, the day after, 1 Mar, 31 Dec of every one of these years
           SecDays,     \* day numbers of which every second is enumerated
           NumTo,       \* every n in 0 .. NumTo, for each of the three functions
@@ -26,7 +27,8 @@ Least(a, b) == IF a < b THEN a ELSE b
 BoundarySods == <<0, 86399, 43200, 3599, 3600, 59, 60, 86340, 1, 45296, 82800, 35999>>
 
 DayBatches == {[kind |-> "days", from |-> k * Batch, to |-> Least(k * Batch + Batch - 1, DaysTo),
-                sod |-> BoundarySods[(k % 12) + 1], full |-> IF k % 16 = 0 THEN 1 ELSE 0] : k \in 0..(DaysTo \div Batch)}
+                sod |-> BoundarySods[((k + p) % 12) + 1], full |-> IF (k + p) % 16 = 0 THEN 1 ELSE 0]
+               : k \in 0..(DaysTo \div Batch), p \in 0..(DayPasses - 1)}
 
 YearGroup == Batch \div 5
 YearDay(yy, k) == CASE k = 0 -> DaysFromCivil(yy, 1, 1)
